@@ -25,6 +25,8 @@ def main():
             outs.append({"bounds": [[int(v) for v in _reversible_slice_boundaries(c["T"], k)] for k in c["ks"]]})
             continue
         base = run(c["spec"], None)
+        if "error" in base:
+            outs.append({"error": "baseline run failed: " + base["error"]}); continue
         res = []
         scale = max(float(np.abs(np.asarray(base["out"].fields.E)).max()), 1e-30)
         for g in c["grads"]:
